@@ -18,7 +18,7 @@ import (
 )
 
 func init() {
-	fw.Register(&fw.Prop{ID: "C07", Run: run, Sharded: true, QuickSecs: 80, ThoroughSecs: 1500})
+	fw.Register(&fw.Prop{ID: "C07", Run: run, Sharded: true, QuickSecs: 150, ThoroughSecs: 1500})
 }
 
 // node kinds of the test tree.
@@ -61,6 +61,7 @@ const (
 var ops = []op{
 	{"walk", "dir", -1, func(t uint16, f, nf uint32, s string) refcodec.Msg { return rawpeer.Twalk(t, f, nf, "x") }},
 	{"walkgetattr", "dir", -1, func(t uint16, f, nf uint32, s string) refcodec.Msg { return rawpeer.Twalkgetattr(t, f, nf, "x") }},
+	{"walk-sub", "dir", -1, func(t uint16, f, nf uint32, s string) refcodec.Msg { return rawpeer.Twalk(t, f, nf, "sub") }},
 	{"clone", "any", -1, func(t uint16, f, nf uint32, s string) refcodec.Msg { return rawpeer.Twalk(t, f, nf) }},
 	{"lopen", "openable", -1, func(t uint16, f, nf uint32, s string) refcodec.Msg { return rawpeer.Tlopen(t, f, 0) }},
 	{"lcreate", "dir", -1, func(t uint16, f, nf uint32, s string) refcodec.Msg { return rawpeer.Tlcreate(t, f, "cr"+s, 2) }},
@@ -236,8 +237,90 @@ func scenario(p params, oa, ob op, same bool) *fw.Scenario {
 	}}
 }
 
+// firstWalkScenario: TWO ROUNDS inside one explored window. Round 1: two walks
+// in flight together from a directory to a name that has never been walked to
+// (so both create its place in the server's path tree). Round 2: a request
+// through each of the two new fids, in flight together. The two fids name one
+// path, so the conflict matrix applies to round 2 whatever happened in round 1.
+func firstWalkScenario(first, name string, oa, ob op, two bool) *fw.Scenario {
+	nm := fmt.Sprintf("firstwalks:%s(%s) then %s||%s", first, name, oa.name, ob.name)
+	if two {
+		nm += "|2conns"
+	}
+	return &fw.Scenario{Name: nm, Params: map[string]any{"first": first, "name": name, "A": oa.name, "B": ob.name, "two": two}, RaceOK: true, New: func() (func(), func(*vsched.Execution) ([]fw.Issue, string)) {
+		var fs *memfs.FS
+		base := 0
+		var replies [4]refcodec.Msg
+		body := func() {
+			fs = mkfs()
+			memfs.RecordSites = true
+			srv := sess.NewServer(fs)
+			s1 := sess.Connect(fs, srv, "c1")
+			s1.Version(8192)
+			s1.Attach(1)
+			s2 := s1
+			if two {
+				s2 = sess.Connect(fs, srv, "c2")
+				s2.Version(8192)
+				s2.Attach(1)
+			}
+			bind(s1, 9, nD, -1)
+			if two {
+				bind(s2, 9, nD, -1)
+			}
+			mkw := func(tag uint16, nf uint32) refcodec.Msg {
+				if first == "walkgetattr" {
+					return rawpeer.Twalkgetattr(tag, 9, nf, name)
+				}
+				return rawpeer.Twalk(tag, 9, nf, name)
+			}
+			base = len(fs.Calls)
+			vsched.BeginExplore()
+			round := func(i int, A, B refcodec.Msg) {
+				if s1 == s2 {
+					s1.Peer.SendAll(A, B)
+					replies[i], _ = s1.Peer.Recv()
+					replies[i+1], _ = s1.Peer.Recv()
+				} else {
+					s1.Peer.Send(A)
+					s2.Peer.Send(B)
+					replies[i], _ = s1.Peer.Recv()
+					replies[i+1], _ = s2.Peer.Recv()
+				}
+			}
+			round(0, mkw(100, 10), mkw(101, 11))
+			round(2, oa.mk(102, 10, 20, "A"), ob.mk(103, 11, 21, "B"))
+			vsched.EndExplore()
+			s1.Hangup()
+			s1.WaitDone()
+			if s2 != s1 {
+				s2.Hangup()
+				s2.WaitDone()
+			}
+		}
+		check := func(e *vsched.Execution) ([]fw.Issue, string) {
+			is := oracle.ContractIssues(fs, base)
+			out := ""
+			for _, r := range replies {
+				out += fmt.Sprintf("%s/%d ", r.Name(), rawpeer.Errno(r))
+			}
+			return is, out + fmt.Sprintf("calls=%d", len(fs.Calls)-base)
+		}
+		return body, check
+	}}
+}
+
+func opNamed(n string) op {
+	for _, o := range ops {
+		if o.name == n {
+			return o
+		}
+	}
+	panic(n)
+}
+
 func run(ctx *fw.Ctx, rep *fw.Report) {
-	rep.Rule = "scenario = ordered pair (A,B) of the 25 backend-reaching request types x path relation {same fid, two fids one path, parent/child, child/parent, siblings} x {one, two connections}, two requests in flight on the real server over memfs; all Mazurkiewicz traces (DPOR+sleep sets; fallback preemption bound 0,1); oracle: conflict matrix of the File interface comments over happens-before of backend enter/exit events (not physical overlap), plus Open count per handle; distinct = distinct (replies, call count, unordered-pair flag) per scenario"
+	rep.Rule = "scenario = ordered pair (A,B) of the 26 backend-reaching request types x path relation {same fid, two fids one path, parent/child, child/parent, siblings} x {one, two connections}, two requests in flight on the real server over memfs; all Mazurkiewicz traces (DPOR+sleep sets; fallback preemption bound 0,1); oracle: conflict matrix of the File interface comments over happens-before of backend enter/exit events (not physical overlap), plus Open count per handle; plus 16 two-round scenarios (two FIRST walks to one fresh name in flight together, then a conflicting pair through the two new fids); distinct = distinct (replies, call count, unordered-pair flag) per scenario"
 	rep.Assumptions = append(rep.Assumptions, "independence classes of DESIGN §2.2", "conflict matrix transcribed from p9/file.go comments; 'none' class (StatFS, Lock, Close) and xattr methods never flagged", "setup before the explored window follows the default schedule and settles")
 	type sc struct {
 		p      params
@@ -264,9 +347,34 @@ func run(ctx *fw.Ctx, rep *fw.Report) {
 		}
 	}
 	rep.Info["scenarios_total"] = len(all)
-	budget := 20 * time.Second
+	budget := 8 * time.Second
 	if !ctx.Quick() {
 		budget = 3 * time.Minute
+	}
+	// two-round scenarios: racing FIRST walks to a name, then a conflicting pair
+	// through the two fids they produced.
+	k := len(all)
+	for _, first := range []string{"walk", "walkgetattr"} {
+		for _, tgt := range []struct {
+			name string
+			prs  [][2]string
+		}{{"y", [][2]string{{"setattr", "getattr"}, {"setattr", "setattr"}}}, {"sub", [][2]string{{"mkdir", "getattr"}, {"setattr", "walk"}}}} {
+			for _, pr := range tgt.prs {
+				for _, two := range []bool{false, true} {
+					k++
+					if !ctx.Mine(k) {
+						continue
+					}
+					if ctx.Quick() && first == "walkgetattr" && two {
+						rep.Count("scenarios_left_to_thorough", 1)
+						continue
+					}
+					fw.RunScenario(ctx, rep, firstWalkScenario(first, tgt.name, opNamed(pr[0]), opNamed(pr[1]), two), fw.SchedOpts{Budget: budget, ForcePB: -1, Fallback: []int{0, 1}, Deviations: -1,
+						// one connection: the unbounded search does not finish in the quick budget (>6e4 executions); go straight to preemption bounds 0 and 1 there
+						SkipDPOR: ctx.Quick() && !two})
+				}
+			}
+		}
 	}
 	for i, s := range all {
 		if !ctx.Mine(i) {
